@@ -4,6 +4,7 @@ import (
 	"bytes"
 	"encoding/json"
 	"fmt"
+	"math"
 	"os"
 	"os/exec"
 	"strconv"
@@ -427,6 +428,22 @@ func c17Run(c *Ctx) {
 			c.S.States++
 			c.S.Evaluations++
 			c17Purity(c, mk(), op.name)
+		}
+	}
+	// receivers holding a value the JSON encoder rejects (NaN / Inf arrive through cast decoding with CastNanInf):
+	// Copy may fail, but a Copy that succeeds shares nothing
+	for _, mk := range []func() map[string]interface{}{
+		func() map[string]interface{} {
+			return map[string]interface{}{"r": map[string]interface{}{"k": math.NaN()}, "k": "s"}
+		},
+		func() map[string]interface{} {
+			return map[string]interface{}{"r": []interface{}{math.Inf(1), map[string]interface{}{"k": "v"}}, "k": map[string]interface{}{"k": "w"}}
+		},
+	} {
+		if c.Mine() {
+			c.S.States++
+			c.S.Evaluations++
+			c17Purity(c, mk(), "Copy")
 		}
 	}
 	// wide receivers: lists around the internal initial result capacity (32) and its doubling, with the key
